@@ -85,7 +85,8 @@ def check(case, ctx):
         if s["t"] in ("alias", "custom", "or", "subst"):
             if s["t"] == "or":
                 continue
-            raise HarnessError("alias/custom node in a C06 spec")
+            ctx.label("skip:alias-or-custom-node")      # outside C06's domain
+            return
     try:
         S = specs.build(spec)
     except DeclarationError as e:
